@@ -121,7 +121,10 @@ fn field_variants() -> Vec<(&'static str, Vec<Box<dyn Fn(&mut Snap)>>)> {
         ("last_tc", vec![b(|s| s.last_tc = 0), b(|s| s.last_tc = 4), b(|s| s.last_tc = 31)]),
         ("adsb_version", vec![b(|s| s.adsb_version = None), b(|s| s.adsb_version = Some(0)), b(|s| s.adsb_version = Some(7))]),
         ("surveillance_status", vec![b(|s| s.surveillance_status = ' '), b(|s| s.surveillance_status = 'P'), b(|s| s.surveillance_status = 'S')]),
-        ("ages", vec![b(|s| { s.pos_age = None; s.track_age = None; s.heading_age = None; }), b(|s| { s.pos_age = Some(0); s.track_age = Some(9_999); s.heading_age = Some(10_000); }), b(|s| { s.pos_age = Some(159_000); s.track_age = None; s.heading_age = Some(90_000); })]),
+        ("ages", vec![b(|s| { s.pos_age = None; s.track_age = None; s.heading_age = None; }), b(|s| { s.pos_age = Some(0); s.track_age = Some(9_999); s.heading_age = Some(10_000); }), b(|s| { s.pos_age = Some(159_000); s.track_age = None; s.heading_age = Some(90_000); }),
+            // the one-digit age markers wrap every 160 s: ages at, just past and far beyond the wrap, one marker at a time
+            b(|s| { s.pos_age = Some(160_000); s.track_age = Some(0); s.heading_age = Some(0); }), b(|s| { s.pos_age = Some(0); s.track_age = Some(165_000); s.heading_age = Some(0); }), b(|s| { s.pos_age = Some(0); s.track_age = Some(0); s.heading_age = Some(160_000); }),
+            b(|s| { s.pos_age = Some(159_999); s.track_age = Some(319_999); s.heading_age = Some(1_000_000); }), b(|s| { s.pos_age = Some(86_400_000); s.track_age = Some(86_400_000); s.heading_age = Some(4_000_000_000); })]),
         ("lc", vec![b(|s| s.age = 0), b(|s| s.age = 7_000), b(|s| s.age = 59_000), b(|s| s.age = 99_000)]),
     ]
 }
